@@ -1,13 +1,13 @@
 (** C01 — Scheduler evaluation agrees with the graph-reduction semantics.
     Model: Model/EvalTree.v — the workflow as a tree of calls (task calls with literal results,
-    failing tasks, parallel containers of calls, seq, catch); [adm] is the documented reduction
+    failing tasks, parallel containers of calls, seq, catch, catch_all without recover); [adm] is the documented reduction
     semantics (set of admissible outcomes: with several failing children of one container any of
     their errors may surface); the machine lets the schedule decide which call starts and which
     task function finishes next (any executor, any completion order).
 
     Proved for every program of this language and every schedule.  NOT PROVED in Coq (decided by the
     correspondence run and the reference-evaluator oracle on the real scheduler only): lazy
-    operators, partial tasks, expression-valued defaults, cond, catch_all, map_, flat_map,
+    operators, partial tasks, expression-valued defaults, cond, catch_all WITH a recover task, map_, flat_map,
     apply_func, fork_thread/join_thread, apply_tags, and the executor modes (thread / process /
     async), which differ only in how arguments and results are serialised. *)
 From Coq Require Import List ZArith Bool Arith.
@@ -34,6 +34,24 @@ Proof. exact fails_spec. Qed.
 Theorem C01_reference_decides : forall s o, admb s o = true <-> adm s o.
 Proof. exact admb_adm. Qed.
 
+(** catch_all is positional: whatever finished first, the error that surfaces is the error of the first
+    failing term of the nested value (every term before it succeeded). *)
+Theorem C01_catch_all_positional : forall cs ops e,
+  result (run (SAll cs) ops) = Some (Ko e) ->
+  exists pre c post vs, cs = pre ++ c :: post /\ Forall2 (fun c v => adm c (Ok v)) pre vs /\ adm c (Ko e).
+Proof.
+  intros cs ops e H. apply run_sound in H.
+  inversion H as [ | | | | | | | | |cs0 pre c0 post vs0 e0 Heq Hpre Hc]; subst. eauto 8.
+Qed.
+
+(** ... and it waits for every term: the later term fails first, the earlier (deeper) one decides. *)
+Example C01_catch_all_nonvacuous :
+  let s := SAll [SList 0 [SRaise 1]; SRaise 2] in
+  let early := [OStart []; OFinish []; OStart [1]; OFinish [1]] in
+  let rest := [OStart [0]; OFinish [0]; OStart [0;0]; OFinish [0;0]] in
+  result (run s early) = None /\ result (run s (early ++ rest)) = Some (Ko 1%Z) /\ admb s (Ko 2%Z) = false.
+Proof. vm_compute. repeat split; reflexivity. Qed.
+
 (** Non-vacuity: two schedules of one program, with an orphaned sibling, same admissible result. *)
 Example C01_nonvacuous :
   let s := SList 1 [SCatch (SSeq [SLeaf 2; SRaise 7; SLeaf 3]); SList 4 [SLeaf 5; SLeaf 6]] in
@@ -51,3 +69,4 @@ Print Assumptions C01_sched_refines_spec_partial.
 Print Assumptions C01_result_stable.
 Print Assumptions C01_value_xor_error.
 Print Assumptions C01_reference_decides.
+Print Assumptions C01_catch_all_positional.
